@@ -153,6 +153,212 @@ def replay_behaviour(ctx, XmlWrite, hist, rng, flavour):
     return text, expected, raised_mismatch
 
 
+NASTY_ASCII = [b'<b>', b'a&b', b'"q"', b"it's", b'x\x01y', b'tab\there', b']]>', b'<!--', b'&amp;', b'\x7f', b'plain', b'a\x0bb', b' lead', b'trail ']
+NASTY_BYTES = [b'caf\xe9', b'\x80\x85\x9f', b'\x81 \x8d', b'\xa0\xff', b'100\xb0C', b'\x93quoted\x94']
+
+
+def build_nasty_dlis(rng):
+    """an RP66V1 file (as C03/C04) whose long names, units, descriptions and values carry markup, quotes, control characters
+    and (in ASCII-typed values) bytes above 0x7f.  Returns (bytes, truth)."""
+    from ..gen import dlis as GD, dlislog as GLg
+    from . import c04
+    nlf = rng.choice([1, 2])
+    recs, payloads, truth = [], [], []
+    for lf in range(nlf):
+        ntypes = rng.choice([1, 2])
+        types, chans_all = [], []
+        for t in range(ntypes):
+            nch = rng.choice([1, 2, 4])
+            chs = []
+            for c in range(nch):
+                rc = rng.choice([2, 7]) if c == 0 else rng.choice([2, 7, 13, 16])
+                chs.append(dict(name=b'X%d%d' % (lf, t) if c == 0 else b'C%d%d%d' % (lf, t, c), long_name=b'ln ' + rng.choice(NASTY_ASCII), rc=rc,
+                                units=rng.choice([b'm', b'', b'<u>', b'a&b', b'"']), dims=[1] if c == 0 else rng.choice([[1], [2]])))
+            chans_all += chs
+            types.append(dict(name=b'FT%d' % t, channels=chs, n=rng.choice([1, 2, 5, 12]), description=rng.choice(NASTY_ASCII)))
+        order = []
+        for t, ty in enumerate(types):
+            order += [t] * ty['n']
+        rng.shuffle(order)
+        well = rng.choice(NASTY_ASCII + NASTY_BYTES)
+        company = rng.choice(NASTY_ASCII + NASTY_BYTES)
+        params = [(b'P%d' % i, rng.choice(NASTY_ASCII + NASTY_BYTES), rng.choice(NASTY_ASCII)) for i in range(rng.randint(0, 3))]
+        eflrs = [GLg.file_header(seq=lf + 1), GLg.origin_full(well=well, company=company, field=rng.choice(NASTY_ASCII))]
+        kinds = [0, 1]
+        if params:
+            eflrs.append(GLg.simple_eflr(b'PARAMETER', [(b'LONG-NAME', 20, None, None), (b'VALUES', 20, None, None)],
+                                         [((1, 0, nm), [[ln], [val]]) for nm, val, ln in params]))
+            kinds.append(5)
+        eflrs += [GLg.channel_eflr(chans_all), GLg.frame_eflr([dict(name=ty['name'], channels=ty['channels'], description=ty['description']) for ty in types])]
+        kinds += [3, 4]
+        for k, pl in zip(kinds, eflrs):
+            recs.append(dict(kind='E', type=k, enc=False))
+            payloads.append(pl)
+        counters = [0] * ntypes
+        for t in order:
+            r = counters[t]
+            counters[t] += 1
+            data = b''
+            for c, ch in enumerate(types[t]['channels']):
+                for e in range(ch['dims'][0]):
+                    data += c04.enc(ch['rc'], c04.value_of(ch['rc'], r, c, e))
+            payloads.append(GLg.iflr(types[t]['name'], r + 1, data))
+            recs.append(dict(kind='I', type=0, enc=False))
+        truth.append(dict(eflrs=len(eflrs), types=[dict(name=ty['name'].decode(), n=ty['n'], description=ty['description']) for ty in types],
+                          well=well, company=company, params=params))
+    for rec, pl in zip(recs, payloads):
+        rec['len'] = len(pl)
+    vm = rng.choice([256, 8192])
+    lay = GD.random_layout(rng, recs, vm)
+    return GD.render(recs, lay, sul=GD.render_sul(1, vm), payloads=payloads).data, truth
+
+
+def expand_rle(el, hexa):
+    out = []
+    for r in el:
+        d, st, rep = r.get('datum'), r.get('stride'), int(r.get('repeat'))
+        if hexa:
+            d, st = int(d, 16), int(st, 16)
+        else:
+            d, st = float(d), float(st)
+        out += [d + st * k for k in range(rep + 1)]
+    return out
+
+
+def check_index_xml(ctx, doc, logical_index, truth, case):
+    """the index document against the in-memory index and the generated content"""
+    import xml.etree.ElementTree as ET
+    root = ET.fromstring(doc.encode('utf-8', 'surrogatepass'))
+    lfs = root.find('LogicalFiles')
+    if lfs is None or len(list(lfs)) != len(logical_index.logical_files) or len(list(lfs)) != len(truth):
+        return 'index lists %s logical files, the file has %d' % (None if lfs is None else len(list(lfs)), len(truth))
+    for li, (lf_el, lf, tr) in enumerate(zip(lfs, logical_index.logical_files, truth)):
+        eflr_els = lf_el.findall('EFLR')
+        if len(eflr_els) != tr['eflrs'] or len(eflr_els) != len(lf.eflrs):
+            return 'logical file %d: %d EFLR entries, the file has %d tables' % (li, len(eflr_els), tr['eflrs'])
+        for eel, pe in zip(eflr_els, lf.eflrs):
+            if int(eel.get('lrsh_position'), 16) != pe.lrsh_position.lrsh_position or eel.get('set_type') != pe.eflr.set.type.decode('ascii'):
+                return 'EFLR entry %s/%s does not match the in-memory table %s at 0x%x' % (eel.get('set_type'), eel.get('lrsh_position'), pe.eflr.set.type, pe.lrsh_position.lrsh_position)
+            objs = eel.findall('Object')
+            if len(objs) != len(pe.eflr.objects):
+                return 'EFLR %s lists %d objects, in memory %d' % (eel.get('set_type'), len(objs), len(pe.eflr.objects))
+            for oel, obj in zip(objs, pe.eflr.objects):
+                ael = oel.findall('Attribute')
+                if len(ael) != len(obj.attrs):
+                    return 'object %s: %d attributes, in memory %d' % (oel.get('I'), len(ael), len(obj.attrs))
+                for a_el, a in zip(ael, obj.attrs):
+                    vals = list(a_el)
+                    mem = list(a.value) if a.value is not None else []
+                    if len(vals) != len(mem):
+                        return 'attribute %s: %d values, in memory %d' % (a_el.get('label'), len(vals), len(mem))
+                    for v_el, v in zip(vals, mem):
+                        if isinstance(v, bytes):
+                            want = v.decode('latin-1')
+                            if xmltrace.representable(want) and v_el.get('value') != want:
+                                return 'attribute %s of %s %s: value %r, the file holds %r' % (a_el.get('label'), eel.get('set_type'), oel.get('I'), v_el.get('value'), want)
+        lp_el = lf_el.find('LogPass')
+        fas = [] if lp_el is None else lp_el.findall('FrameArray')
+        if len(fas) != len(tr['types']):
+            return 'logical file %d: %d FrameArray entries, the file has %d frame types' % (li, len(fas), len(tr['types']))
+        for fa_el, ty, fa in zip(fas, tr['types'], lf.log_pass.frame_arrays if lf.has_log_pass else []):
+            if fa_el.get('I') != ty['name']:
+                return 'FrameArray %r, expected %r' % (fa_el.get('I'), ty['name'])
+            want_d = ty['description'].decode('latin-1')
+            if xmltrace.representable(want_d) and fa_el.get('description') != want_d:
+                return 'FrameArray %s description %r, the file holds %r' % (ty['name'], fa_el.get('description'), want_d)
+            iflr = fa_el.find('IFLR')
+            mem = lf.iflr_position_map[fa.ident]
+            fn = expand_rle(iflr.find('FrameNumbers'), False)
+            pos = expand_rle(iflr.find('LRSH'), True)
+            xa = expand_rle(iflr.find('Xaxis'), False)
+            if int(iflr.get('count')) != ty['n'] or len(mem) != ty['n']:
+                return 'FrameArray %s: IFLR count %s, the file has %d frames' % (ty['name'], iflr.get('count'), ty['n'])
+            if fn != [float(m.frame_number) for m in mem] or fn != [float(k + 1) for k in range(ty['n'])]:
+                return 'FrameArray %s: frame numbers expand to %r, index holds %r' % (ty['name'], fn[:8], [m.frame_number for m in mem][:8])
+            if pos != [m.logical_record_position.lrsh_position for m in mem]:
+                return 'FrameArray %s: record positions expand to %r, index holds %r' % (ty['name'], pos[:6], [m.logical_record_position.lrsh_position for m in mem][:6])
+            if xa != [float(m.x_axis) for m in mem] or xa != [k * 0.5 for k in range(ty['n'])]:
+                return 'FrameArray %s: X values expand to %r, index holds %r' % (ty['name'], xa[:8], [m.x_axis for m in mem][:8])
+    vr = root.find('VisibleRecords')
+    if vr is not None and expand_rle(vr, True) != list(logical_index.visible_record_positions):
+        return 'visible record positions expand to %r..., index holds %r...' % (expand_rle(vr, True)[:4], list(logical_index.visible_record_positions)[:4])
+    return None
+
+
+def real_writers_rp66_lis(ctx, rng, traces, parsed_l, ok_l, meta):
+    """RP66V1 XML index, RP66V1 HTML scan, LIS HTML: captured call streams + documents (appended to the lists)"""
+    from TotalDepth.RP66V1 import IndexXML, ScanHTML
+    from TotalDepth.RP66V1.core import LogicalFile
+    from TotalDepth.LIS import LisToHtml
+    from TotalDepth.common import Slice
+    from . import c11
+    wd = ctx.wdir('rp66')
+
+    def judge(doc, recs, m):
+        doc = known_f7(ctx, doc, m)
+        ok, err, pev = xmltrace.parse_events(doc)
+        if ok:
+            ok2, why = xmltrace.lxml_ok(doc)
+            if not ok2:
+                ok, err = False, 'lxml: ' + why
+        for r_ in recs:
+            traces.append(r_.ev)
+            parsed_l.append(pev)
+            ok_l.append(ok)
+            meta.append(dict(m, parse_error=err, calls=r_.calls))
+        return doc, ok
+
+    for t in range(ctx.pick(30, 250)):
+        data, truth = build_nasty_dlis(rng)
+        pin = os.path.join(wd, 'f%d.dlis' % t)
+        with open(pin, 'wb') as f:
+            f.write(data)
+        m = dict(writer='IndexXML.write_logical_file_sequence_to_xml', file=t, truth=json.dumps(truth, default=lambda b: b.decode('latin-1'))[:500])
+        ctx.case(('indexxml', t), True)
+        try:
+            with LogicalFile.LogicalIndex(pin) as li:
+                out = io.StringIO()
+                with xmltrace.record_xml_streams() as recs:
+                    IndexXML.write_logical_file_sequence_to_xml(li, out, rng.random() < 0.5)
+                doc, ok = judge(out.getvalue(), recs, m)
+                if ok:
+                    bad = check_index_xml(ctx, doc, li, truth, m)
+                    if bad:
+                        ctx.fail('RP66V1 XML index: %s; %s' % (bad, m['truth'][:300]), dict(m, doc=doc[:3000]), sig=dict(kind='index-xml-content'))
+        except Exception as e:
+            ctx.fail('IndexXML raised %s: %s; %s' % (type(e).__name__, e, m['truth'][:300]), m, sig=dict(kind='index-xml-exception', error=type(e).__name__))
+        m2 = dict(m, writer='ScanHTML.html_scan_RP66V1_file_data_content')
+        ctx.case(('scanhtml', t), True)
+        try:
+            out = io.StringIO()
+            with xmltrace.record_xml_streams() as recs:
+                ScanHTML.html_scan_RP66V1_file_data_content(pin, out, False, Slice.Slice(), rng.random() < 0.5)
+            judge(out.getvalue(), recs, m2)
+        except Exception as e:
+            ctx.fail('ScanHTML raised %s: %s; %s' % (type(e).__name__, e, m['truth'][:300]), m2, sig=dict(kind='scan-html-exception', error=type(e).__name__))
+        os.remove(pin)
+    wl = ctx.wdir('lis')
+    for t in range(ctx.pick(20, 150)):
+        data, _passes, lmeta = c11.build_lis(rng, ctx)
+        pin = os.path.join(wl, 'f%d.lis' % t)
+        pout = os.path.join(wl, 'o%d' % t)
+        with open(pin, 'wb') as f:
+            f.write(data)
+        m = dict(writer='LisToHtml.processFile', file=t, lis=json.dumps(lmeta)[:300])
+        ctx.case(('lishtml', t), True)
+        try:
+            with xmltrace.record_xml_streams() as recs:
+                LisToHtml.processFile(pin, pout, False)
+            if os.path.exists(pout + '.html'):
+                judge(open(pout + '.html', encoding='utf-8', errors='surrogatepass').read(), recs, m)
+                os.remove(pout + '.html')
+            else:
+                ctx.fail('LisToHtml.processFile wrote no HTML for a valid LIS file; %s' % m['lis'], m, sig=dict(kind='lis-html-missing'))
+        except Exception as e:
+            ctx.fail('LisToHtml.processFile raised %s: %s; %s' % (type(e).__name__, e, m['lis']), m, sig=dict(kind='lis-html-exception', error=type(e).__name__))
+        os.remove(pin)
+
+
 def run(ctx):
     repo.setup()
     from ..core import quiet_logging
@@ -316,6 +522,7 @@ def run(ctx):
         ctx.case(('lashtml', t), True)
         os.remove(pin)
         os.remove(pout)
+    real_writers_rp66_lis(ctx, rng, traces, parsed_l, ok_l, meta)
     if traces:
         ctx.sample(dict(kind='real writer call stream', meta=meta[0], events=traces[0][:12]))
         rej = ctx.validate_traces('XmlStreamTrace', 'XmlStreamTrace', traces, payload_extra=dict(parsed=parsed_l, ok=ok_l),
